@@ -114,6 +114,7 @@ def run(ck, F):
     rule_self_alias(ck, F, X)
     rule_member_separators(ck, F, X)
     rule_doc_comments_document(ck, F, X)
+    rule_refs_name_derivable_items(ck, F, X)
     rule_skeletons(ck, F)
 
 
@@ -500,6 +501,61 @@ def rule_doc_comments_document(ck, F, X):
         else:
             ck.ok("R3", f"doc-comment:documents:{D.fn.rsplit('::', 1)[-1]}", D.site, "every line that can follow this `///` line begins an item", fn="")
     ck.floor("R3", "doc comment templates", len(docs), 2)
+
+
+def rule_refs_name_derivable_items(ck, F, X):
+    """A member whose type names an item of the output gets `YaSerialize` / `YaDeserialize` through the derive of its struct, which
+    needs those traits for the member's type *as written*: a struct of the output has them, an alias of a built-in type
+    (`pub type Note = String;`, what a global element of a built-in type is written as) does not (E0277). A member made from
+    `ref="t:note"` therefore must not be typed with the alias. Decided by evaluation: the type a `ref` member gets, for a looked-up
+    node that is an element of a built-in type, is that built-in type and not a reference to the element's item."""
+    from engine.rulekit import fde
+    from rules import anchors as A_
+    alias = []
+    for fn in X.events:
+        for ev in X.events[fn]:
+            if ev.kind == "emit" and re.match(r"^\s*pub type \{\} = \{\};", ev.skeleton()):
+                hs = ev.holes()
+                if len(hs) == 2 and str(hs[1][2] or "").replace("&", "").strip().endswith("RustFieldType"):
+                    alias.append(ev)
+    if not alias:
+        ck.ok("R4", "ref-names-derivable-item", "-", "no item of the output is an alias that can stand for a built-in type")
+        return
+    CEM = og.CallExpander(F, general_matches=True)
+    lookups = {p_ for p_, _n, _s in A_.component_lookups(F)}
+    CEM.keep = set(lookups)
+    node = {"rust_type": ("variant", "model::structures::RustType::Element",
+                          ({"xml_name": "note", "comment": None,
+                            "element_type": ("variant", "model::structures::element::ElementType::RustType", (("variant", "model::field::RustFieldType::String"),))},)),
+            "in_namespace": None}
+    n = 0
+    for (fn, site, ctx, fields, base) in og.field_summaries(F, "model::field::Field"):
+        if "try_from_node" not in fn or "rust_type" not in fields:
+            continue
+        if not any(c[0] == "alt" and c[2] and "'ref'" in og.nf_str(c[1]) for c in ctx):
+            continue
+        v = CEM.expand(fields["rust_type"])
+        calls = [c for c in og.nf_calls(v) if c[1] in lookups] + [c for x in ctx if x[0] == "alt" for c in og.nf_calls(CEM.expand(x[1])) if c[1] in lookups]
+        # (the type may not look at the node at all: then it is what it is for every node)
+        n += 1
+        try:
+            got = fde.Evaluator({c: fde.some(node) for c in calls}, opaque=True).ev(v)
+        except fde.Undecided as u:
+            if og.nf_str(v) == "String" or (isinstance(v, tuple) and v[0] == "const" and not str(v[1]).endswith("Other")):
+                continue
+            ck.undecided("R4", "ref-names-derivable-item", site, f"the type a `ref` member gets could not be evaluated for an element of a built-in type: {u}")
+            continue
+        if isinstance(got, tuple) and got and got[0] == "variant" and str(got[1]).rsplit("::", 1)[-1] == "Other":
+            ck.violation("R4", "ref-names-derivable-item", site,
+                         "a member made from `ref=` to a global element of a built-in type is typed with the element's item, which is written as "
+                         f"`pub type X = <built-in>;` ({alias[0].site}): yaserde's derive needs YaSerialize / YaDeserialize for the type as written and "
+                         "an alias of `String` / a number has neither (E0277: the output does not compile)")
+        elif isinstance(got, tuple) and got and got[0] == "variant":
+            ck.ok("R4", "ref-names-derivable-item", site, f"a `ref` to an element of a built-in type gives the member that type ({str(got[1]).rsplit('::', 1)[-1]})")
+        else:
+            ck.undecided("R4", "ref-names-derivable-item", site, f"the type a `ref` member gets for an element of a built-in type evaluates to {str(got)[:80]}")
+    if n == 0:
+        ck.undecided("R4", "ref-names-derivable-item", "-", "no place where a member is made from a `ref` attribute was found")
 
 
 def rule_member_separators(ck, F, X):
